@@ -31,11 +31,11 @@ Dropped(ops) ==
     \cup [short : {FALSE}, qr : {TRUE}, op : ops, qd : 0..1, qok : BOOLEAN, body : {"ok", "bad"}, edns : {"none", "v1"},
           src : {Src1, Src2}, qname : {<<x, a, z>>}, loose : {FALSE}]
 MC_Requests ==
-    Dropped({0, 5, 7})
-    \cup [short : {FALSE}, qr : {FALSE}, op : {0, 5, 4, 2, 1, 7}, qd : 0..2, qok : BOOLEAN, body : {"ok", "bad", "unknown"},
+    Dropped({0, 5, 7, 13})
+    \cup [short : {FALSE}, qr : {FALSE}, op : {0, 5, 4, 2, 1, 7, 8, 13, 15}, qd : 0..2, qok : BOOLEAN, body : {"ok", "bad", "unknown"},
           edns : {"none", "v0", "v1", "unknown"}, src : {Src1, Src2, Src3}, qname : QNs, loose : BOOLEAN]
 MCQ_Requests ==
     Dropped({0, 7})
-    \cup [short : {FALSE}, qr : {FALSE}, op : {0, 5, 4, 7}, qd : 0..2, qok : BOOLEAN, body : {"ok", "bad", "unknown"},
+    \cup [short : {FALSE}, qr : {FALSE}, op : {0, 5, 4, 7, 13}, qd : 0..2, qok : BOOLEAN, body : {"ok", "bad", "unknown"},
           edns : {"none", "v1"}, src : {Src1, Src2}, qname : {<<42, a, z>>, ZZ, <<x, o>>}, loose : {FALSE}]
 =============================================================================
